@@ -24,7 +24,7 @@ import (
 	"github.com/iden3/go-schema-processor/v2/merklize"
 	"github.com/iden3/go-schema-processor/v2/verifiable"
 	"github.com/piprate/json-gold/ld"
-	"golang.org/x/crypto/sha3"
+	"github.com/iden3/go-schema-processor/v2/utils"
 
 	"vharness/coqgen"
 	"vharness/ctxload"
@@ -64,7 +64,7 @@ func FieldPaths() []string {
 type ExtraType struct {
 	Name    string `json:"name"`
 	IRI     string `json:"iri"`
-	Shape   string `json:"shape"`          // "map" | "array" | "none" (no @context) | "string" (term is a plain IRI string)
+	Shape   string `json:"shape"`         // "map" | "array" | "none" (no @context) | "string" (term is a plain IRI string)
 	SerAttr string `json:"ser,omitempty"` // for Shape map
 }
 
@@ -211,16 +211,15 @@ func MakeDID(seed int64) string {
 
 // Spec of one credential.
 type Spec struct {
-	Schema        *Schema    `json:"schema"`
-	Subject       any        `json:"subject"`              // nil = no id; string DID; anything else is written as is
-	SubjectNull   bool       `json:"subject_null"`         // "id": null
-	Expiration    *int64     `json:"expiration,omitempty"` // unix seconds
-	Omit          []string   `json:"omit,omitempty"`       // field paths left out
-	NoSubjectType bool       `json:"no_subject_type"`      // credentialSubject has no "type": the top-level type pair decides
-	TopTypes      []string   `json:"top_types,omitempty"`  // override of the top-level "type" array
-	Values        [5]string  `json:"values"`               // price, count, name, insured, since ("" = default)
-	ExtraCtx      []string   `json:"extra_ctx,omitempty"`  // more context URLs
-	issuance      *time.Time
+	Schema        *Schema   `json:"schema"`
+	Subject       any       `json:"subject"`              // nil = no id; string DID; anything else is written as is
+	SubjectNull   bool      `json:"subject_null"`         // "id": null
+	Expiration    *int64    `json:"expiration,omitempty"` // unix seconds
+	Omit          []string  `json:"omit,omitempty"`       // field paths left out
+	NoSubjectType bool      `json:"no_subject_type"`      // credentialSubject has no "type": the top-level type pair decides
+	TopTypes      []string  `json:"top_types,omitempty"`  // override of the top-level "type" array
+	Values        [5]string `json:"values"`               // price, count, name, insured, since ("" = default)
+	ExtraCtx      []string  `json:"extra_ctx,omitempty"`  // more context URLs
 }
 
 type Cred struct {
@@ -283,7 +282,7 @@ func Build(sp Spec) (*Cred, error) {
 		"issuer":            "did:iden3:polygon:mumbai:wyFiV4w71QgWPn6bYLsZoysFay66gKtVa9kfu6yMZ",
 		"issuanceDate":      "2023-01-02T03:04:05Z",
 		"credentialSubject": cs,
-		"credentialSchema":  map[string]any{"id": "https://schemas.example/gen/schema.json", "type": "JsonSchema2023"},
+		"credentialSchema":  map[string]any{"id": "https://schemas.example/gen/schema.json", "type": "JsonSchemaValidator2018"},
 	}
 	if sp.Expiration != nil {
 		doc["expirationDate"] = time.Unix(*sp.Expiration, 0).UTC().Format(time.RFC3339)
@@ -526,9 +525,7 @@ func (v View) Coq(f *coqgen.File) string {
 // Keccak is the Keccak-256 digest of s read as a big-endian number (computed
 // with x/crypto directly, not through the repository's wrapper).
 func Keccak(s string) *big.Int {
-	d := sha3.NewLegacyKeccak256()
-	d.Write([]byte(s))
-	return new(big.Int).SetBytes(d.Sum(nil))
+	return new(big.Int).SetBytes(utils.Keccak256([]byte(s)))
 }
 
 // DIDToID is w3c.ParseDID followed by core.IDFromDID; the 31 identifier bytes
